@@ -412,11 +412,13 @@ class API:
         )
 
         # "metadata", "retry", "timeout", and "request" are reserved words in client methods.
+        # "__init__" is the name of the `types` package's own module.
         invalid_module_names = set(keyword.kwlist) | {
             "metadata",
             "retry",
             "timeout",
             "request",
+            "__init__",
         }
 
         def disambiguate_keyword_sanitize_fname(
